@@ -59,14 +59,23 @@ impl GhostStream {
     { unimplemented!() }
 }
 
+// Ghost consumer: stands for the `FnMut(&[u8])` parameter of scan (the call `(consumer)(bytes)` of the source is renamed
+// to `consumer.call(bytes)`); `fed` is everything it has been handed so far, in order.
+pub struct GhostConsumer { pub ghost fed: Seq<u8> }
+impl GhostConsumer {
+    #[verifier::external_body]
+    pub fn call(&mut self, b: &[u8]) ensures final(self).fed == old(self).fed + b@ { unimplemented!() }
+}
+
 // statement slice of hasher::scan, from `let mut read: u64 = 0;` to `Ok(read)`; `buf` is the thread-local buffer
 // (a `RefMut<Vec<u8>>` in the source, a `&mut Vec<u8>` here), `consumer` feeds the hasher.
 #[verifier::exec_allows_no_decreases_clause] // termination is not part of C01 / C15 (and a retry on EINTR has no variant)
-fn scan_loop<F: FnMut(&[u8])>(stream: &mut GhostStream, len: FileLen, buf: &mut Vec<u8>, mut consumer: F) -> (r: Result<u64, std::io::Error>)
+fn scan_loop(stream: &mut GhostStream, len: FileLen, buf: &mut Vec<u8>, CONSUMER: &mut GhostConsumer) -> (r: Result<u64, std::io::Error>)
     requires
         !old(stream).failed, !old(stream).erred, !old(stream).eof, old(stream).delivered.len() == 0,
-        forall|b: &[u8]| #[trigger] consumer.requires((b,)),
+        old(CONSUMER).fed.len() == 0,
     ensures
+        r is Ok ==> final(CONSUMER).fed == final(stream).delivered, // @ob C01.scan.the_consumer_receives_exactly_the_bytes_read_in_order
         final(stream).failed ==> r is Err, // @ob C15.scan.read_error_is_propagated_never_a_partial_result
         r is Err ==> final(stream).erred, // @ob C15.scan.fails_only_when_a_read_failed
         r is Ok ==> r->Ok_0 == final(stream).delivered.len(), // @ob C01.scan.count_is_the_number_of_bytes_consumed
@@ -92,16 +101,26 @@ def build():
     m1 = re.search(r"^[ \t]*Ok\(%s\)[ \t]*$" % cnt, fn.text, re.M)
     if not m1:
         raise LostAnchor("no final `Ok(%s)` in hasher::scan" % cnt)
-    ub.spec(PRELUDE)
-    p = ub.piece(Piece(Region(h, fn.start + m0.start(), fn.start + m1.end())))
+    # the consumer parameter (`mut <name>: F`) and its call `(<name>)(ARG)` / `<name>(ARG)`: renamed to `<name>.call(ARG)`
+    mc = re.search(r"(?:mut\s+)?(\w+)\s*:\s*F\s*,", fn.text[:m0.start()])
+    if not mc:
+        raise LostAnchor("no consumer parameter `<name>: F` in the signature of hasher::scan")
+    cons = mc.group(1)
+    slice_text = fn.text[m0.start():m1.end()]
+    calls = re.findall(r"\(\s*%s\s*\)\s*\(|(?<![\w.])%s\s*\(" % (cons, cons), slice_text)
+    if len(set(calls)) != 1:
+        raise LostAnchor("the consumer of hasher::scan is not called in one recognisable form inside the read loop")
+    ub.spec(PRELUDE.replace("CONSUMER", cons))
+    p = ub.piece(Piece(Region(h, fn.start + m0.start(), fn.start + m1.end()), renames=((calls[0], cons + ".call("),)))
     loop_head = "while %s < len" % cnt
     if p.has(loop_head):
         p.after(loop_head, "\n            invariant_except_break !stream.eof, !stream.failed,\n"
                 "            invariant %s == stream.delivered.len(), %s <= len, len == verif_len0.0,\n"
-                "                forall|b: &[u8]| #[trigger] consumer.requires((b,)),\n"
+                "                %s.fed == stream.delivered, // @ob C01.scan.the_consumer_receives_exactly_the_bytes_read_in_order\n"
                 "            ensures %s == stream.delivered.len(), %s <= len, len == verif_len0.0, (%s == len || stream.eof),\n"
+                "                %s.fed == stream.delivered,\n"
                 "                !stream.failed, // @ob C15.scan.read_error_is_propagated_never_a_partial_result\n"
-                "       " % (cnt, cnt, cnt, cnt, cnt))
+                "       " % (cnt, cnt, cons, cnt, cnt, cnt, cons))
         p.after(loop_head + " {", "\n            broadcast use min_u64;")
     p.before("let len = len.into();", "        let ghost verif_len0 = len;")
     m2 = re.search(r"let (\w+) = &mut (\w+)\[\.\.(\w+)\];", p.base)
@@ -115,8 +134,8 @@ def build():
         "the buffer is not empty (FileHasher.buf_len = 65536 and scan resizes it to at least buf_len), so a 0-byte read means end of file",
         "`(&mut v[..n]).len() == n` (assume; vstd's spec of mutable range indexing does not expose it)",
         "From<FileLen> for u64 returns the wrapped value; std::cmp::min on u64",
-        "the thread-local buffer set-up before the slice (BUF.with, resize) and what the consumer closure does with the bytes are NOT covered; "
-        "that the consumer is called with exactly buf[..actual_read] is not expressed (opaque FnMut)",
+        "the `FnMut(&[u8])` consumer is a ghost consumer that records what it is handed (its call `(consumer)(x)` is renamed to `consumer.call(x)`); "
+        "the thread-local buffer set-up before the slice (BUF.with, resize) and what stream_hash's closure does with the bytes (hasher.update) are NOT covered",
         "termination of the loop is not claimed",
     ]
     return ub
